@@ -19,6 +19,8 @@ use tracing::warn;
 
 mod connection_manager;
 pub use connection_manager::KnownPeers;
+#[cfg(bmwill_anemo_verif)]
+pub use connection_manager::verif;
 use connection_manager::{
     ActivePeers, ActivePeersRef, ConnectionManager, ConnectionManagerRequest,
 };
